@@ -308,6 +308,11 @@ def _rule_slope_kept(repo, res):
                         defs.setdefault(x.id, []).append(n.value)
         elif isinstance(n, ast.AugAssign) and isinstance(n.target, ast.Name):
             defs.setdefault(n.target.id, []).append(n.value)
+        elif isinstance(n, (ast.For, ast.comprehension)):
+            # a loop variable derives from what is iterated (zip / enumerate arguments, generator elements included)
+            for x in ast.walk(n.target):
+                if isinstance(x, ast.Name):
+                    defs.setdefault(x.id, []).append(n.iter)
 
     def closure(e, seen=None, depth=0):
         seen = seen if seen is not None else set()
